@@ -449,12 +449,14 @@ pub fn contiguous_uni<const H: usize, const N: usize, const P: usize>(k: Kind, n
                 i += 1;
             }
             check!(contiguous && spec::valid_witness(&nh, &needle, w), "C02 contiguous kinds report contiguous, valid indices (code points)");
+            // (a failed check cuts the path under Kani: the one-character clause of C04 comes before the
+            // occurrence check it would otherwise hide behind)
+            if k == Kind::Fuzzy1 {
+                check!(score as u32 == 16 + 2 * bonus[ws], "C04 one-character needle: the best-placed occurrence wins (code points)");
+            }
             check!(w[0] as usize == ws, "C05 the reported occurrence is the leftmost one whose first character earns the highest bonus / is anchored as the kind requires (code points)");
             if contiguous && (w[0] as usize) + N <= H {
                 check!(score as u32 == spec::score_of(&bonus, w, N), "C03 score equals the fzf scheme evaluated on the reported alignment (contiguous kinds, code points)");
-            }
-            if k == Kind::Fuzzy1 {
-                check!(score as u32 == 16 + 2 * bonus[ws], "C04 one-character needle: the best-placed occurrence wins (code points)");
             }
         }
         cover!(ws > 0, "match not at position 0");
@@ -462,6 +464,13 @@ pub fn contiguous_uni<const H: usize, const N: usize, const P: usize>(k: Kind, n
     }
     cover!(r.is_none(), "no match");
     let r2 = call(&mut m, k, Utf32Str::Unicode(&hay), n32, None);
+    check!(r2.is_some() == want.is_some(), "C05 contiguous matching decides the documented relation (score-only variant, code points)");
+    if k == Kind::Fuzzy1 {
+        if let (Some(score), Some(ws)) = (r2, want) {
+            check!(score as u32 == 16 + 2 * bonus[ws], "C04 one-character needle: the best-placed occurrence wins (score-only variant, code points)");
+        }
+    }
+    // (a failed check cuts the path under Kani: the property-specific checks come first)
     check!(r2 == r, "C03 score-only and indices variants return the same value (contiguous kinds, code points)");
     std::mem::forget(m);
 }
